@@ -188,8 +188,8 @@ Definition c08_atof_ok (t : list Z) (d : binary_float 53 1024) : bool :=
   | None => true
   end.
 
-(* The same clause when undefined behaviour is observable: the parse must complete (r = Some)
-   and give the value back. *)
+(* The same clause on an outcome: the parse must complete without an undefined operation
+   (parsed = Some r) and give the value back. *)
 Definition c08_int_strict_ok (v : Z) (text : list Z) (parsed : option Z) : bool :=
   match parsed with
   | Some r => c08_int_ok v text r
